@@ -123,6 +123,13 @@ class Body:
         if k == "goto":
             return [t["target"]]
         if k == "switch":
+            d = t["discr"]
+            if d["k"] == "const" and "bits" in d:
+                # switch on a literal constant (e.g. `if false`): only one edge is ever taken
+                for v, tgt in t["targets"]:
+                    if v == d["bits"]:
+                        return [tgt]
+                return [t["otherwise"]]
             out = [x[1] for x in t["targets"]] + [t["otherwise"]]
             seen = []
             for x in out:
